@@ -138,6 +138,15 @@ Theorem C19_set_insert : forall sp o cur st l c',
 Proof. exact p_set_insert. Qed.
 Print Assumptions C19_set_insert.
 
+(* the size limit also binds the INSERT path: a full set (MAX_CONFIG_SET_SIZE elements) rejects every
+   further INSERT; together with C19_set_insert (<= limit after a successful INSERT, canonical set) and
+   C19_stored_typed / C19_stored_set_canonical (SET path) no path stores more than the limit *)
+Theorem C19_insert_limit : forall sp o cur st l,
+  obj_set_setting sp (o_name o) st -> o_code o = OAdd -> existing st cur = VList l ->
+  (g_max_set <= length l)%nat -> exists e, apply_cell sp o cur = Err e.
+Proof. exact p_insert_limit. Qed.
+Print Assumptions C19_insert_limit.
+
 (* filtered RESET on an object set *)
 Theorem C19_set_remove : forall sp o cur st l c',
   obj_set_setting sp (o_name o) st -> o_code o = ORem -> existing st cur = VList l ->
